@@ -33,7 +33,7 @@ set_option linter.unusedVariables false
 set_option linter.unusedSectionVars false
 
 namespace HcipyVerif.C06
-open HcipyVerif.OpIR HcipyVerif.Effects HcipyVerif.Elements
+open HcipyVerif.OpIR HcipyVerif.OpIR.Old HcipyVerif.Effects HcipyVerif.Elements
 
 section Linear
 variable {K : Type} [CommRing K] {cj : K → K}
@@ -258,7 +258,9 @@ theorem mixed_not_linear :
 
 The class of defect "keep only the modes / pixels / components that carry more than a fraction θ of
 *this* input's power": `f(a·E) = a·f(E)` holds for every `a ≠ 0`, so single-input and
-comparable-magnitude tests pass, yet a faint component riding on a bright one is dropped. -/
+comparable-magnitude tests pass, yet a faint component riding on a bright one is dropped.
+(`OpIR.Old.keepExcited`: a defect class — seeded C06-2 —, not code of /repo; these two theorems
+explain the harness's wide-magnitude additivity probe and are not evidence about hcipy.) -/
 
 /-- Threshold selection relative to the input's own power commutes with every non-zero factor … -/
 theorem keepExcited_homogeneous (θ a : Rat) (ha : a ≠ 0) (x : List Rat) :
